@@ -302,7 +302,7 @@ impl Property for C12 {
         "C12"
     }
     fn rule(&self) -> String {
-        "proving requests for three entry points (generate_rln_proof from tree state, generate_rln_proof_with_witness, raw prove), valid ones (C01's generator) and invalid ones by class: mid = limit, mid = limit+1+d, mid >= 2^16 with limit > mid, limit - mid > 2^16, limit = 0, mid = p-1, index in {cap, cap+1, usize::MAX}, path length 0/1/19/21, a direction value in 2..255, index vector of different length, truncation at a generated byte, trailing bytes, declared signal length longer / shorter / huge (2^32, 2^63, u64::MAX-135, u64::MAX), random bytes. \
+        "proving requests for three entry points (generate_rln_proof from tree state, generate_rln_proof_with_witness, raw prove), valid ones (C01's generator) and invalid ones by class: mid = limit, mid = limit+1+d, mid >= 2^16 with limit > mid, limit - mid > 2^16, limit = 0, mid = p-1, index in {cap, cap+1, usize::MAX}, path length 0/1/19/21, a direction value in 2..255, index vector of different length, truncation at a generated byte, trailing bytes, declared signal length longer / shorter / huge (2^32, 2^63, u64::MAX-135, u64::MAX), random bytes. Fixed part: every class (34 representatives) once on each of the three entry points; generated part: the same classes with generated requests and parameters. \
          Oracle: Err, or Ok with a message that verification accepts (verify_rln_proof against the same tree for the tree entry, verify for witness entries); a panic or an Ok with a rejected proof is a violation; valid requests must succeed. The reference witness generator partitions witness-level requests (label only; an accepted proof for an assignment it rejects raises a harness alarm). \
          non-trivial = any invalid class, or a valid request with mid = limit-1; distinct by case content".into()
     }
@@ -321,6 +321,64 @@ impl Property for C12 {
         (req_strategy(3000), prop_oneof![3 => Just(Via::Tree), 2 => Just(Via::Witness), 1 => Just(Via::RawProve)], inval_strategy())
             .prop_map(|(req, via, inval)| Case { req, via, inval })
             .boxed()
+    }
+    /// every invalid class once per entry point, on a request drawn from the seed (the generated part
+    /// then varies requests and parameters): no class is left to chance in the quick tier
+    fn fixed_part(&self, ctx: &Ctx, stats: &mut Stats) -> Option<(String, Option<Case>)> {
+        let reqs = draw(&req_strategy(300), ctx.seed, "c12-fixed", 2);
+        let classes: Vec<Inval> = vec![
+            Inval::MidEqLimit,
+            Inval::MidLimitPlus(0),
+            Inval::MidLimitPlus(200),
+            Inval::MidAboveBitRange(0, 1),
+            Inval::MidAboveBitRange(65535, 65535),
+            Inval::LimitFarAbove(0),
+            Inval::LimitFarAbove(99_999),
+            Inval::LimitZero,
+            Inval::MidPm1,
+            Inval::IndexCap,
+            Inval::IndexCapPlus1,
+            Inval::IndexMax,
+            Inval::PathLen(0),
+            Inval::PathLen(1),
+            Inval::PathLen(2),
+            Inval::PathLen(3),
+            Inval::BitValue(0, 0),
+            Inval::BitValue(19, 253),
+            Inval::BitsLen(0),
+            Inval::BitsLen(1),
+            Inval::BitsLen(2),
+            Inval::TruncateAt(0),
+            Inval::TruncateAt(9_000),
+            Inval::TruncateAt(30_000),
+            Inval::TruncateAt(65_535),
+            Inval::SignalLenLonger(0),
+            Inval::SignalLenLonger(1_000),
+            Inval::SignalLenShorter,
+            Inval::SignalLenHuge(0),
+            Inval::SignalLenHuge(1),
+            Inval::SignalLenHuge(2),
+            Inval::SignalLenHuge(3),
+            Inval::Extend(0),
+            Inval::Extend(8),
+        ];
+        for (k, inval) in classes.into_iter().enumerate() {
+            for via in [Via::Tree, Via::Witness, Via::RawProve] {
+                let c = Case { req: reqs[k % reqs.len()].clone(), via, inval: inval.clone() };
+                let mut o = Outcome::new();
+                o.label(format!("via/{:?}", c.via));
+                o.label(format!("request/{}", inval_name(&c.inval)));
+                o.label("fixed-class-sweep");
+                o.nontrivial = true;
+                run(ctx, &c, &mut o);
+                let h = case_hash(&c);
+                stats.record(&o, h, || serde_json::json!({"via": format!("{:?}", c.via), "request": format!("{:?}", c.inval)}));
+                if let Some(m) = o.fail {
+                    return Some((m, Some(c)));
+                }
+            }
+        }
+        None
     }
     fn check(&self, ctx: &Ctx, c: &Case) -> Outcome {
         let mut o = Outcome::new();
